@@ -438,6 +438,12 @@ func fileSeek(L *LState) int {
 	var pos int64
 	var err error
 
+	// buffered output belongs before the position the file is about to leave
+	if bwriter, ok := file.writer.(*bufio.Writer); ok {
+		if err = bwriter.Flush(); err != nil {
+			goto errreturn
+		}
+	}
 	err = file.AbandonReadBuffer()
 	if err != nil {
 		goto errreturn
